@@ -55,6 +55,79 @@ def check(ctx):
         ctx.check(not w, inst, "FORBID", ew.path, "dropping expired winners performs no device write itself (it only queues extents)", None)
     check_winner(ctx, "C04.winner")
     check_repairs(ctx, "C04.repairs")
+    check_position(ctx)
+
+
+def check_position(ctx):
+    """two-slot journal: a new journal record must never overwrite the newest valid one, on any run of recovery. That needs
+    the (generation, slot) of the record recovery decoded to be restored unconditionally before recovery's own first
+    journal write, the next position to be (generation + 1, the *other* slot), and the in-memory position to advance only
+    after the record is on the device."""
+    inst = "C04.position"
+    def on_field(name):
+        return lambda bb, n: R.recv_expr(bb, n).has_field("DiskIO", name)
+    st_gen = R.call("Atomic::store", "AtomicU64::store").filter(on_field("journal_generation"), "journal_generation.store")
+    st_slot = R.call("Atomic::store", "AtomicUsize::store").filter(on_field("journal_slot"), "journal_slot.store")
+    b = ctx.fn("DiskIO::read_allocation_journal", inst)
+    if b is not None:
+        dec = ctx.sites(b, R.call("allocation_journal::decode"), inst, exact=1)
+        g = ctx.sites(b, st_gen, inst, exact=1)
+        sl = ctx.sites(b, st_slot, inst, exact=1)
+        oks = A.ok_nodes(b)
+        R.dom(ctx, inst, b, g, oks, "the decoded generation is restored on every successful read of the journal", a_desc="journal_generation.store")
+        R.dom(ctx, inst, b, sl, oks, "the decoded slot is restored on every successful read of the journal (active or clear)", a_desc="journal_slot.store")
+        for x, f in ((g, "generation"), (sl, "slot")):
+            for n in x:
+                v = R.arg_expr(b, b.nodes[n], 1)
+                ctx.check(v.has_field("JournalState", f) and any(c.nid in dec for c in v.calls()), inst, "PROVENANCE", b.path,
+                          "journal_%s is restored from the decoded state" % f, b.where(n), {"value": v.show()[:80]})
+    allowed = ["DiskIO::read_allocation_journal", "DiskIO::write_allocation_journal", "DiskIO::clear_allocation_journal"]
+    n_w = 0
+    for bb in ctx.prog.product_bodies():
+        for sel in (st_gen, st_slot):
+            for n in sel(bb):
+                n_w += 1
+                o = R.owner_fn(ctx.prog, bb)
+                ctx.check(any(path_matches(o, a) for a in allowed), inst, "CALLERS", o, "the journal position is written only by the journal read / write / clear routines", bb.where(n))
+    ctx.check(n_w == 6, inst, "anchor", "-", "journal position stores (expected 6, found %d)" % n_w, None)
+    for fn in ("DiskIO::write_allocation_journal", "DiskIO::clear_allocation_journal"):
+        b = ctx.fn(fn, inst)
+        if b is None:
+            continue
+        nx = ctx.sites(b, R.call("DiskIO::next_journal_position"), inst, exact=1)
+        ws = ctx.sites(b, R.call("DiskIO::write_sectors_sync"), inst, exact=1)
+        fl = ctx.sites(b, R.call("DiskIO::flush"), inst, exact=1)
+        g = ctx.sites(b, st_gen, inst, exact=1)
+        sl = ctx.sites(b, st_slot, inst, exact=1)
+        R.dom(ctx, inst, b, fl, g + sl, "the in-memory position advances only after the record was written and flushed", a_desc="flush")
+        R.guard(ctx, inst, b, g + sl, R.guard_edges_for_call(b, fl, "Ok"), "and only on the Ok edge of the flush")
+        R.guard(ctx, inst, b, g + sl, R.guard_edges_for_call(b, ws, "Ok"), "and of the write")
+        for n in g + sl:
+            v = R.arg_expr(b, b.nodes[n], 1)
+            ctx.check(any(c.nid in nx for c in v.calls()), inst, "PROVENANCE", b.path, "the position stored is the one next_journal_position computed", b.where(n))
+        for w in ws:
+            v = R.arg_expr(b, b.nodes[w], 1)
+            ctx.check(v.has_call("DiskIO::journal_sector") and any(c.nid in nx for c in v.calls()), inst, "PROVENANCE", b.path,
+                      "the record is written to the sector of the slot next_journal_position chose", b.where(w))
+    b = ctx.fn("DiskIO::next_journal_position", inst)
+    if b is not None:
+        tr = A.tracer(b)
+        rem = [n for n in b.nodes if n.kind == "assign" and n.ev.get("rv") == "bin" and n.ev["op"] == "Rem"]
+        ok = False
+        if len(rem) == 1:
+            v = tr.node_value(rem[0].id)
+            lhs = v.a[0]
+            ok = v.a[1].has_const(name="ALLOCATION_JOURNAL_SLOTS") and lhs.k == "bin" and lhs.extra.startswith("Add") and \
+                any(x.k == "const" and (x.extra or {}).get("val") == 1 for x in lhs.a) and lhs.has_field("DiskIO", "journal_slot")
+        ctx.check(ok, inst, "PIN", b.path, "the next slot is (current slot + 1) % ALLOCATION_JOURNAL_SLOTS: never the slot holding the newest record", None)
+        ca = ctx.sites(b, R.call("u64::checked_add", "checked_add"), inst, exact=1)
+        for c in ca:
+            e0, e1 = R.arg_expr(b, b.nodes[c], 0), R.arg_expr(b, b.nodes[c], 1)
+            ctx.check(e0.has_field("DiskIO", "journal_generation") and e1.k == "const" and (e1.extra or {}).get("val") == 1, inst, "PIN", b.path,
+                      "the next generation is the current one + 1", b.where(c))
+    v = ctx.prog.consts.get("storage::allocation_journal::ALLOCATION_JOURNAL_SLOTS", {}).get("val") if hasattr(ctx.prog, "consts") else None
+    if v is not None:
+        ctx.check(v == 2, inst, "PIN", "-", "two journal slots", None)
 
 
 def check_repairs(ctx, inst):
